@@ -5,6 +5,6 @@ cd "$(dirname "$0")"
 export CARGO_NET_OFFLINE=true
 python3 tools/ops_table.py --check
 mkdir -p work && python3 tools/featmodel.py
-(cd lean && lake build GeonumModel GeonumModel.Props.C20 gdriver)
+(cd lean && lake build GeonumModel GeonumModel.Props.C20 GeonumModel.Spec.RoundWitness gdriver)
 (cd harness && cargo build --offline)
 echo setup-ok
